@@ -4,6 +4,8 @@ package hc
 
 import (
 	"os"
+	"strconv"
+	"strings"
 	"sync/atomic"
 	"syscall"
 	"time"
@@ -29,18 +31,49 @@ func cpuTime() time.Duration {
 	return time.Duration(ru.Utime.Nano() + ru.Stime.Nano())
 }
 
+// runawayBytes: a single case (one call into the code under test on an input of a few bytes)
+// during which the resident set of the worker grows by this much is reported like a stall -
+// the call is allocating without bound and would otherwise end with the kernel's OOM killer
+// choosing a victim. Memory the harness itself accumulates over many cases never counts: the
+// baseline is taken each time a case completes.
+const runawayBytes = 4 << 30
+
+func rssBytes() int64 {
+	b, err := os.ReadFile("/proc/self/statm")
+	if err != nil {
+		return 0
+	}
+	f := strings.Fields(string(b))
+	if len(f) < 2 {
+		return 0
+	}
+	n, _ := strconv.ParseInt(f[1], 10, 64)
+	return n * int64(os.Getpagesize())
+}
+
 // WatchStall starts the watchdog; describe names the case in progress (signature suffix,
 // description, replay payload) and may read harness variables without synchronisation.
 func (w *W) WatchStall(describe func() (string, string, interface{})) {
 	go func() {
 		progress := func() uint64 { return atomic.LoadUint64(&beat) + uint64(atomic.LoadInt64(&w.R.Evaluations)) }
-		last, cpu0 := progress(), cpuTime()
+		last, cpu0, rss0 := progress(), cpuTime(), rssBytes()
 		for {
-			time.Sleep(2 * time.Second)
+			time.Sleep(500 * time.Millisecond)
 			p, c := progress(), cpuTime()
 			if p != last {
-				last, cpu0 = p, c
+				last, cpu0, rss0 = p, c, rssBytes()
 				continue
+			}
+			if rssBytes()-rss0 > runawayBytes {
+				sig, desc, rp := describe()
+				if *Replay != "" {
+					println("VIOLATION: the call allocates without bound: " + desc)
+					os.Exit(1)
+				}
+				w.Violation("stall:"+sig, "the call did not return and allocates without bound: the worker grew by more than 4 GiB while no case completed; in progress: "+desc, rp)
+				w.NotExhaustive("stopped at a runaway call")
+				w.Finish()
+				os.Exit(0)
 			}
 			if c-cpu0 > stallCPU {
 				sig, desc, rp := describe()
